@@ -42,6 +42,8 @@ type Unit struct {
 	EndStates   []uint64         `json:"end_states,omitempty"`
 	EndStatesN  int64            `json:"distinct_end_states"`
 	NonTrivial  int64            `json:"nontrivial"`
+	Distinct    int64            `json:"distinct_executions"`
+	Pruned      int64            `json:"pruned_by_state_cache,omitempty"`
 	States      int64            `json:"states,omitempty"`
 	Transitions int64            `json:"transitions,omitempty"`
 	Depth       int              `json:"depth,omitempty"`
@@ -83,6 +85,8 @@ type Ctx struct {
 	Out        *ShardOut
 	Replay     *ReplayReq
 	OnlyUnit   string // run only units whose name has this prefix (debugging)
+	ByUnit     bool   // distribute whole units over the shards instead of splitting each unit's tree
+	unitCtr    int
 }
 
 func (c *Ctx) Quick() bool { return c.Tier != "thorough" }
@@ -134,6 +138,9 @@ func (c *Ctx) skip(name string) bool {
 	return c.OnlyUnit != "" && !strings.HasPrefix(name, c.OnlyUnit)
 }
 
+// NoCache disables state caching for the next Explore calls (sequential harnesses do not need it).
+var NoCache bool
+
 // Explore runs the DFS explorer over run within the deviation bound and records the unit.
 func (c *Ctx) Explore(name string, params map[string]any, bound int, run explore.RunFunc) *Unit {
 	if c.skip(name) {
@@ -143,19 +150,64 @@ func (c *Ctx) Explore(name string, params map[string]any, bound int, run explore
 		c.replay(name, params, run)
 		return nil
 	}
-	st := explore.NewStats()
+	shard, of := c.Shard, c.Of
+	if c.ByUnit {
+		c.unitCtr++
+		if of > 1 && (c.unitCtr-1)%of != shard {
+			c.UnitBudget = 0
+			return nil
+		}
+		shard, of = 0, 1
+	}
+	// iterated deviation bound: 0, 1, ..., bound; the highest bound completed is reported
 	var samples []any
-	opt := explore.Options{Bound: bound, Deadline: c.unitDeadline(), Shard: c.Shard, Of: c.Of, KeepGoing: true, MaxViol: 6,
-		OnExec: func(e *explore.Exec, v explore.Verdict) {
-			// keep a few written-out cases: the first, and the first few with deviations
-			if len(samples) < 3 && (len(samples) == 0 || (e.Cost() > 0 || len(e.Choices()) > 0) && v.NonTriv) {
-				samples = append(samples, map[string]any{"choices": e.Choices(), "deviation_cost": e.Cost(), "outcome": v.Outcome})
-			}
-		}}
-	explore.Explore(run, opt, st)
-	u := &Unit{Name: name, Params: params, Kind: "dfs", Bound: bound, Executions: st.Executions, Points: st.Points, MaxPoints: st.MaxPoints,
-		ByCost: map[string]int64{}, Outcomes: st.Outcomes, EndStatesN: int64(len(st.EndStates)), NonTrivial: st.NonTrivial,
-		Exhaustive: st.Exhaustive, CapHit: st.CapHit, Samples: samples, WallS: st.WallSeconds}
+	deadline := c.unitDeadline()
+	total := explore.NewStats()
+	completed := -1
+	var distinct, distinctNT, lastStates int64
+	var wall float64
+	var st *explore.Stats
+	for b := 0; b <= bound; b++ {
+		b := b
+		st = explore.NewStats()
+		opt := explore.Options{Bound: b, Deadline: deadline, Shard: shard, Of: of, KeepGoing: true, MaxViol: 6, Cache: !NoCache,
+			OnExec: func(e *explore.Exec, v explore.Verdict) {
+				if e.Cost() == b { // executions below the bound were counted in an earlier iteration
+					distinct++
+					if v.NonTriv {
+						distinctNT++
+					}
+				}
+				// keep a few written-out cases: the first, and the first few with deviations
+				if len(samples) < 3 && (len(samples) == 0 || (e.Cost() > 0 || len(e.Choices()) > 0) && v.NonTriv && e.Cost() == b) {
+					samples = append(samples, map[string]any{"choices": e.Choices(), "deviation_cost": e.Cost(), "outcome": v.Outcome})
+				}
+			}}
+		explore.Explore(run, opt, st)
+		total.Merge(st)
+		wall += st.WallSeconds
+		lastStates = st.States
+		if !st.Exhaustive {
+			break
+		}
+		completed = b
+		if len(st.Violations) > 0 || st.ByCost[b] == 0 {
+			break // nothing new at this bound: higher bounds add nothing either
+		}
+	}
+	if completed == bound || (st.Exhaustive && st.ByCost[st.Bound] == 0) {
+		total.Exhaustive, total.CapHit = true, ""
+	} else {
+		total.Exhaustive = false
+		if total.CapHit == "" {
+			total.CapHit = st.CapHit
+		}
+		total.CapHit = fmt.Sprintf("%s during bound %d (bound %d completed)", total.CapHit, completed+1, completed)
+	}
+	st = total
+	u := &Unit{Name: name, Params: params, Kind: "dfs", Bound: completed, Executions: st.Executions, Points: st.Points, MaxPoints: st.MaxPoints,
+		ByCost: map[string]int64{}, Outcomes: st.Outcomes, EndStatesN: int64(len(st.EndStates)), NonTrivial: distinctNT, Distinct: distinct,
+		Exhaustive: st.Exhaustive, CapHit: st.CapHit, Samples: samples, WallS: wall, Pruned: st.Pruned, States: lastStates, Transitions: st.Points}
 	for k, v := range st.ByCost {
 		u.ByCost[fmt.Sprint(k)] = v
 	}
